@@ -49,6 +49,22 @@ def cases(tier, seed, ctx=None):
                     yield ("sock", [G.NOPOL, ops, env, [4, len(h)]], "sock-pre%d" % (0 if k == 0 else (2 if k == len(segs) else 1)))
                     yield ("srv", [[[], [], [], 0, 0], ops, env + [[]], [4, len(h)]], "srv-pre%d" % (0 if k == 0 else (2 if k == len(segs) else 1)))
 
+    # a refused head on one connection while another connection is being served through the same server, their segments interleaved
+    # (family srvi; the model reads every connection on its own - theorem C04_connections_independent): the 400 stays where it belongs
+    bads = [b"BOGUS", b"GET / HTTP/1.2", b"GET  /b HTTP/1.1\r\nHost: h", b"GET /b HTTP/1.1\r\nNoColon", b"PATCH /b HTTP/1.0\r\nX: 1"]
+    ver3, tab3 = G.oracle(ctx, [b"/b"] + [G.head_target(h) for h in bads])
+    env3 = G.env_for(ver3, tab3, [b"/b"] + [G.head_target(h) for h in bads]) + [[]]
+    for j in range(10 if tier == "quick" else 100):
+        h = bads[j % len(bads)] + b"\r\n\r\n" + rng.choice([b"", b"GET /b HTTP/1.1\r\n\r\n"])
+        k = rng.range(1, len(h) - 1)
+        good = b"GET /b HTTP/1.1\r\nHost: h\r\n\r\n"
+        g = rng.range(1, len(good) - 1)
+        connA = [G.Construct, G.Feed(h[:k]), G.Feed(h[k:]), G.Turn]
+        connB = [G.Construct, G.Feed(good[:g]), G.Feed(good[g:]), G.Turn]
+        conns = [connA, connB] if j % 2 == 0 else [connB, connA]
+        sched = rng.choice([[0, 1, 0, 1, 0, 1, 0, 1], [0, 0, 1, 1, 0, 1, 0, 1], [1, 0, 0, 1, 1, 0, 0, 1], [1, 1, 1, 0, 0, 0, 0, 1]])
+        yield ("srvi", [sched, [[[], [], [], 1, 101], conns, env3, [7, [[b"/b", 0]]]]], "interleaved-refused-and-served")
+
     # the same over a TLS listener, the later bytes in a TLS record of their own that reaches the server in the same read (or one
     # write of several KiB): exactly one 400, nothing routed - as over plain TCP (family tls, TLS vs plain)
     for j, h in enumerate([b"BOGUS", b"GET / HTTP/1.2", b"GET //[::1/x HTTP/1.1\r\nHost: h", b"GET  / HTTP/1.1\r\nHost: h", b"PATCH /x HTTP/1.0"]):
